@@ -20,12 +20,6 @@ Inductive case :=
 (* identities unique, IDs unique, edges attached, parallel edges numbered apart *)
 Definition wf_case (g : graph) : bool := wf_b g.
 
-Definition eid_of (g : graph) (e : edge) : option eid :=
-  match path_of (rows g) (e_src e), path_of (rows g) (e_dst e) with
-  | Some s, Some d => Some (mkEid s d (e_sa e) (e_da e) (e_idx e))
-  | _, _ => None
-  end.
-
 Definition eid_eqb (a b : eid) : bool :=
   path_eqb (i_src a) (i_src b) && path_eqb (i_dst a) (i_dst b)
   && Bool.eqb (i_sa a) (i_sa b) && Bool.eqb (i_da a) (i_da b) && (i_idx a =? i_idx b).
